@@ -556,6 +556,11 @@ func buildSetEvents(id string, task *Task, updates map[string]string, agentID st
 		if !isEpic(task) {
 			if claimValue == "" {
 				// Clear claim
+				if _, hasState := remainingUpdates["state"]; !hasState {
+					if err := validateClaimInvariant(task.State, ""); err != nil {
+						return nil, nil, err
+					}
+				}
 				event, err := newEvent("unclaim", now, UnclaimEvent{
 					ID: id,
 					TS: formatTime(now),
